@@ -289,6 +289,25 @@ def run(ctx, canary=False):
                     if k_ >= D and not ex_now:
                         bad.append("sweep %d: not exact although the spec is exact from sweep %d on" % (k_, D))
                         break
+            if iters == 25 and not bad:
+                # the estimators' use: ONE potentials object, installed on the oracle and then changed in place between calls
+                try:
+                    fg2 = FactorGraph(dom, cliques, total=total, convex=False, iters=25)
+                    theta = CliqueVector({c: Factor(dom.project(c), np.log(np.array(list(reversed(p["w"])), dtype=float))) for c, p in zip(cliques, pots)})
+                    with np.errstate(all="ignore"):
+                        mu_old = fg2.belief_propagation(theta)
+                        fg2.potentials, fg2.marginals = theta, mu_old
+                        for c, p in zip(cliques, pots):
+                            theta[c] = Factor(dom.project(c), np.log(np.array(p["w"], dtype=float)))
+                        mu2 = fg2.belief_propagation(theta)
+                    for c in cliques:
+                        got = np.asarray(mu2[c].values, dtype=float).reshape(-1)
+                        want = np.array(marg_of_joint(attrs, sz, joint, list(c)), dtype=float) * total / Z
+                        if not np.all(np.isfinite(got)) or not np.allclose(got, want, rtol=1e-8, atol=1e-9 * total):
+                            bad.append("second call with the same potentials object changed in place, factor %s: %s, exact %s" % (c, np.round(got, 6).tolist(), np.round(want, 6).tolist()))
+                            break
+                except Exception as ex:
+                    bad.append("second call with the same potentials object raised %r" % ex)
             if bad:
                 ctx.violation("loopy BP on a tree factor graph is not exact: " + "; ".join(bad[:2]), info, {"kind": "not_exact", "oracle": "pairwise"})
 
